@@ -32,6 +32,12 @@ pub async fn main() -> anyhow::Result<()> {
     if config.mode.enable_quic() {
         bail!("mode {} is a server mode; a client listens on tcp, udp or tcp_and_udp", config.mode);
     }
+    if let VMess = current.protocol {
+        // the VMess credential is a UUID: anything else is a configuration error, not a reason to fail every flow later
+        if let Err(e) = octo_squirrel::protocol::vmess::id::from_password(&current.password) {
+            bail!("vmess password is not a UUID: {}", e);
+        }
+    }
     let udp_task = if config.mode.enable_udp() {
         let socket = UdpSocket::bind(listen_addr).await?;
         info!("Listening UDP on: {}", socket.local_addr()?);
